@@ -276,6 +276,20 @@ class Engine:
             if not gone:
                 return None, None
             return GONE, gone[k % len(gone)]
+        if kind == "u":
+            # a node of an unrelated tree of the OTHER node class (a plain Node for a typed tree, a TypedNode for a
+            # plain tree): not a child of the target either
+            if getattr(self, "_alien", None) is None:
+                from nutree import Tree, TypedTree
+
+                if self.typed:
+                    t = Tree("alien")
+                    self._alien = [t.add("u0"), t.add("u1").add("u2")]
+                else:
+                    t = TypedTree("alien")
+                    self._alien = [t.add("u0", kind="x"), t.add("u1", kind="x").add("u2", kind="y")]
+                self._alien_tree = t
+            return GONE, self._alien[k % 2]
         raise AssertionError(before)
 
     def new_data(self, label, opts):
